@@ -35,7 +35,7 @@ def api_job(eng, tables, prop, tname, policy, deadline, max_paths=None, initial=
     to_cbor_value; tagged forms wrap / unwrap exactly the registered tag."""
     if isinstance(policy, dict):
         policy = Policy(**policy)
-    path = PATHS.get(tname) or {"Label": "common::Label"}[tname]
+    path = PATHS.get(tname) or {"Label": "common::Label", "ProtectedHeader": "header::ProtectedHeader"}[tname]
     job = JobResult("api:%s" % tname)
     seen = {}
     tagged = tname in REGISTERED_TAG
@@ -124,14 +124,16 @@ def api_job(eng, tables, prop, tname, policy, deadline, max_paths=None, initial=
         if m is None:
             return
         hexin = ""
+        variants = [b""]
         if node is not None:
             data = concrete.encode(concrete.node_to_tree(m, node, {}))
             if not ctx.side.get("exact", True):
-                data += b"\x00"
+                # trailing bytes the parser did not consume: a complete item, a truncated item, a break
+                variants = [b"\x00", b"\x18", b"\x41", b"\xff"]
             hexin = data.hex()
+        cmds = ["ops api %s %s %s" % (tname, ctx.side.get("mode", "plain"), (hexin + v.hex()) or "-") for v in variants]
         job.findings.append({"property": prop, "key": key, "what": "%s: %s" % (tname, what), "op": "ops",
-                             "type": tname, "input_hex": hexin,
-                             "command": "ops api %s %s %s" % (tname, ctx.side.get("mode", "plain"), hexin or "-"),
+                             "type": tname, "input_hex": hexin, "command": cmds[0], "commands": cmds,
                              "predicted": "PANIC" if cls.startswith("panic") else "MISMATCH", "compare": "startswith"})
 
     hcommon.run_paths(eng, job, harness, deadline, max_paths, on_leaf, initial=initial, bfs=bfs, slice_s=slice_s)
@@ -385,4 +387,118 @@ def canonicalize_job(eng, tables, prop, n_params, deadline, max_paths=None, init
 
     hcommon.run_paths(eng, job, harness, deadline, max_paths, on_leaf, initial=initial, bfs=bfs, slice_s=slice_s)
     job.extra["finding_counts"] = seen
+    return job
+
+
+# ------------------------------------------------------------------------------- C01 nesting depth
+
+def preset(node, kind, **kw):
+    node.kind = kind
+    for k, v in kw.items():
+        setattr(node, k, v)
+    return node
+
+
+def nested_input(ctx, levels, policy):
+    """COSE_Sign1 whose protected header holds a counter-signature whose protected header holds a
+    counter-signature ... `levels` deep; everything not on that spine is left lazy."""
+    root = InputNode("v", policy)
+    ctx.inputs["v"] = root
+
+    def bytes_node(n, name):
+        preset(n, "Bytes", bytes=ctx.fresh_opaque(name, "vec", nonempty=True))
+        ctx.side.setdefault("bytes_nodes", {})[n.bytes.opaque.ident] = n
+        return n
+
+    def header_with_countersig(n, depth):
+        """n: node for a parsed protected header: {7: [bstr(prot), {}, bstr]}"""
+        k = InputNode(n.path + "{0}k", policy)
+        preset(k, "Integer", int=z3.BitVecVal(7, 128))
+        v = InputNode(n.path + "{0}v", policy)
+        sig_items = [InputNode("%s{0}v[%d]" % (n.path, i), policy) for i in range(3)]
+        preset(v, "Array", items=sig_items)
+        preset(sig_items[1], "Map", entries=[])
+        bytes_node(sig_items[2], "sig%d" % depth)
+        prot = bytes_node(sig_items[0], "prot%d" % depth)
+        preset(n, "Map", entries=[(k, v)])
+        return prot
+
+    items = [InputNode("v[%d]" % i, policy) for i in range(4)]
+    preset(root, "Array", items=items)
+    preset(items[1], "Map", entries=[])
+    preset(items[2], "Null")
+    bytes_node(items[3], "signature")
+    prot = bytes_node(items[0], "prot-top")
+    for d in range(levels):
+        parsed = InputNode(prot.path + ".parsed", policy)
+        prot.parsed = parsed
+        outcome = ("ok", parsed, True)
+        prot.parse_outcome = outcome
+        ctx.side.setdefault("parsed", {})[prot.bytes.opaque.ident] = outcome
+        prot = header_with_countersig(parsed, d)
+    # innermost protected header: empty map
+    parsed = InputNode(prot.path + ".parsed", policy)
+    preset(parsed, "Map", entries=[])
+    prot.parsed = parsed
+    prot.parse_outcome = ("ok", parsed, True)
+    ctx.side.setdefault("parsed", {})[prot.bytes.opaque.ident] = prot.parse_outcome
+    return root
+
+
+def depth_job(eng, tables, prop, levels, native_levels, deadline, max_paths=None, initial=None, bfs=False, slice_s=None):
+    """Is the re-entrant parse depth (live activations of the byte-level parser entry) bounded by a
+    constant, or only by the input length?  The spine counter-signature -> protected header ->
+    counter-signature ... is explored symbolically for growing numbers of levels; if every level is
+    feasible and accepted, the same spine with `native_levels` levels is handed to the native
+    replayer, which decodes it on a 2 MiB thread in a child process."""
+    job = JobResult("depth:CoseSign1")
+    seen = {}
+    results = []
+    policy = Policy(max_array=3, max_map=1, max_depth=10 ** 6)
+
+    for n in levels:
+        def harness(ctx, n=n):
+            root = nested_input(ctx, n, policy)
+            r = ctx.call("<sign::CoseSign1 as AsCborValue>::from_cbor_value", [Lazy(root)])
+            return r
+        eng_depth = eng.max_call_depth
+        eng.max_call_depth = 100000
+        import sys
+        old = sys.getrecursionlimit()
+        sys.setrecursionlimit(max(old, 200000))
+        try:
+            for ctx, out in eng.explore(harness, max_paths=4, deadline=deadline):
+                if ctx is None:
+                    break
+                job.paths += 1
+                if out[0] == "ok":
+                    live = ctx.side.get("max_live_parse", 0)
+                    results.append((n, out[1].variant, live, ctx.max_depth))
+                    if out[1].variant == "Ok":
+                        job.accepting += 1
+                    else:
+                        job.rejecting += 1
+                elif out[0] == "depth":
+                    results.append((n, "interpreter-depth", None, ctx.max_depth))
+        except RecursionError:
+            results.append((n, "python-recursion", None, None))
+        finally:
+            eng.max_call_depth = eng_depth
+            sys.setrecursionlimit(old)
+    job.extra["levels"] = results
+    accepted = [r for r in results if r[1] == "Ok"]
+    # bounded iff some level is rejected (a budget kicks in); unbounded iff every explored level is
+    # accepted with the number of live parser activations growing with the level
+    if accepted and len(accepted) == len(results) and accepted[-1][2] is not None and \
+            accepted[-1][2] > accepted[0][2]:
+        job.findings.append({
+            "property": prop, "key": "%s:nesting:protected-header-countersignature-cycle" % prop,
+            "what": "decoding re-enters the byte-level parser once per nesting level (counter-signature -> "
+                    "protected header -> counter-signature ...): %s live activations at %s levels, every level "
+                    "accepted, no budget in the path condition -- depth is bounded only by the input length"
+                    % (accepted[-1][2], accepted[-1][0]),
+            "op": "ops", "type": "CoseSign1", "input_hex": "",
+            "command": "ops nested_sign1 %d" % native_levels, "predicted": "CRASH", "compare": "startswith"})
+    job.samples.append({"levels": results})
+    job.extra["finding_counts"] = {f["key"]: 1 for f in job.findings}
     return job
